@@ -617,8 +617,15 @@ def real_function_body(stmts, env, where, ignore_decl_types=("double", "float"))
         toks = s[1]
         if toks and toks[0][1] == "return":
             return emit_R(parse_expr(toks[1:], where), env, where)
-        if toks and toks[0][1] in ignore_decl_types:
+        while toks and toks[0][1] in tuple(ignore_decl_types) + ("const",):
             toks = toks[1:]
+        # v op= e;  is  v = v op (e);
+        if len(toks) >= 3 and toks[0][0] == "id" and toks[1][1] in ("+=", "-=", "*=", "/="):
+            name = toks[0][1]
+            val = emit_R(("bin", toks[1][1][0], ("var", name), parse_expr(toks[2:], where)), env, where)
+            env2 = dict(env)
+            env2[name] = name
+            return "(let %s := %s in %s)" % (name, val, real_function_body(rest, env2, where))
         if len(toks) >= 3 and toks[0][0] == "id" and toks[1][1] == "=":
             name = toks[0][1]
             val = emit_R(parse_expr(toks[2:], where), env, where)
@@ -862,6 +869,9 @@ def region_kernel_class(repo, hdr, cname, prefix, extra, out):
         e, folded = strip_abs(parse_expr(rs[0][1][1:], hdr))
         if e == ("call", dname, [("var", gen_param)]):
             form = "DrawStd (%s_dist %s) %s" % (prefix, pdecl, "true" if folded else "false")
+        elif e == ("call", "icdf", [("call", dname, [("var", gen_param)])]):
+            # return icdf(distribution(generator)); - the one-expression spelling of the two-statement form
+            form = "DrawIcdf (%s_dist %s) %s" % (prefix, pdecl, "true" if folded else "false")
     elif len(rs) == 2 and rs[0][0] == "simple" and rs[1][0] == "simple" and rs[1][1][0][1] == "return":
         d = rs[0][1]
         if d[0][1] == "double" and d[2][1] == "=":
